@@ -225,13 +225,17 @@ where
     };
 
     // true if the client sent a `Connection: upgrade` header
+    // (only in a version we speak: a request in a higher version is answered 505 and the
+    // connection goes on, so its body has to be delimited and skipped like any other)
     let connection_upgrade = {
         match headers
             .iter()
             .find(|h: &&Header| h.field.equiv("Connection"))
             .map(|h| h.value.as_str())
         {
-            Some(v) if v.to_ascii_lowercase().contains("upgrade") => true,
+            Some(v) if version <= HTTPVersion(1, 1) && v.to_ascii_lowercase().contains("upgrade") => {
+                true
+            }
             _ => false,
         }
     };
